@@ -18,16 +18,19 @@ const (
 	VarRe                 // {v:regex}
 	VarSuf                // {v}suffix   (CurlyRouter only)
 	Wild                  // {v:*}       (last segment only)
+	VarPre                // prefix{v} or prefix{v:regex}: CurlyRouter never matches such a token today (compared as a literal);
+	// the properties speak of "a literal prefix/suffix around a variable", so a router that does match it must bind the text behind the prefix
 )
 
 // Seg is one path segment of a template.
 type Seg struct {
-	Kind SegKind `json:"k"`
-	Lit  string  `json:"lit,omitempty"`
-	Name string  `json:"name,omitempty"`
-	Re   int     `json:"re,omitempty"`
-	Suf  string  `json:"suf,omitempty"`
-	Verb string  `json:"verb,omitempty"` // custom verb (CurlyRouter only, last segment only)
+	Kind  SegKind `json:"k"`
+	Lit   string  `json:"lit,omitempty"`
+	Name  string  `json:"name,omitempty"`
+	Re    int     `json:"re,omitempty"`
+	Suf   string  `json:"suf,omitempty"`
+	Verb  string  `json:"verb,omitempty"`   // custom verb (CurlyRouter only, last segment only)
+	PreRe bool    `json:"pre_re,omitempty"` // VarPre: the variable carries regex Re
 }
 
 func (s Seg) String() string {
@@ -43,6 +46,11 @@ func (s Seg) String() string {
 		b = "{" + s.Name + "}" + s.Suf
 	case Wild:
 		b = "{" + s.Name + ":*}"
+	case VarPre:
+		b = s.Lit + "{" + s.Name + "}"
+		if s.PreRe {
+			b = s.Lit + "{" + s.Name + ":" + Regexes[s.Re].Src + "}"
+		}
 	}
 	if s.Verb != "" {
 		b += ":" + s.Verb
@@ -89,7 +97,7 @@ func (t Tmpl) Shape() string {
 func (t Tmpl) KindShape() string {
 	b := make([]byte, len(t))
 	for i, s := range t {
-		c := "lvrsw"[s.Kind]
+		c := "lvrswp"[s.Kind]
 		if s.Verb != "" {
 			c = c - 'a' + 'A'
 		}
